@@ -40,6 +40,17 @@ def write(prop, tier, seed, cfg, results, kani_res, violations, known_hits, unde
                     samples.append(dict(function=f["qual"], file="%s:%d" % (f["file"], f["repo_line"]), clauses=cl))
         except Exception:
             pass
+    # obligations that carry THIS property: clauses of the functions tagged with it (+ one safety bundle each) + lemmas
+    rel_obl = rel_dis = 0
+    for u in units:
+        r = results[u]
+        failed_ids = [f for f in r.failures]
+        for f in r.fns:
+            if prop in f["props"]:
+                n = sum(f["clauses"].values()) + 1
+                rel_obl += n
+                bad = sum(1 for x in failed_ids if x["fn"] == f["qual"])
+                rel_dis += max(0, n - bad)
     kani_obl = sum(k.get("checks", 0) for k in kani_res)
     kani_ok = sum(k.get("checks", 0) for k in kani_res if k["status"] == "ok")
     ev = dict(
@@ -47,6 +58,9 @@ def write(prop, tier, seed, cfg, results, kani_res, violations, known_hits, unde
         coverage=dict(
             obligations=obligations + kani_obl,
             discharged=discharged + kani_ok,
+            obligations_of_functions_tagged_with_this_property=rel_obl,
+            discharged_of_functions_tagged_with_this_property=rel_dis,
+            counting_rule="obligations = explicit contract clauses (requires/ensures/invariant/decreases/assert/closure ensures, counted by the splicer) + one safety bundle per extracted function (overflow, bounds, unwrap, callee preconditions) + Verus proof items (lemmas, spec-fn termination) of ALL units this property depends on; Kani: CBMC checks of the harnesses",
             checker_cmd="; ".join(checker + [k.get("cmd", "") for k in kani_res]) or "none",
             trusted_base=trusted,
             samples=samples or [dict(note="no function of this property could be extracted on this run")],
